@@ -27,8 +27,12 @@ CONSTANTS
   TickVals = {}
   Targets = {"A", "B"}
   AutoVals = {TRUE, FALSE}
+  SubOneshot = {FALSE}
   Senders = {"A", "B"}
   QuitCodes = {0, 1}
+  ForeignOps = {}
+  MaxRefs = 1
+  MaxHeld = 0
   Setup = ""
 INIT Init
 NEXT Next
